@@ -305,6 +305,8 @@ class StreamClient:
 
         self._update_output_properties(properties)
 
+        # Store each endpoint as soon as it exists, so that close() finds it also when
+        # a later step fails
         (_, control_client) = await self.loop.create_datagram_endpoint(
             lambda: ControlClient(self.context, self._packet_backlog),
             local_addr=(
@@ -312,6 +314,8 @@ class StreamClient:
                 self.settings.protocols.raop.control_port,
             ),
         )
+        self.control_client = cast(ControlClient, control_client)
+
         (_, timing_server) = await self.loop.create_datagram_endpoint(
             TimingServer,
             local_addr=(
@@ -319,8 +323,6 @@ class StreamClient:
                 self.settings.protocols.raop.timing_port,
             ),
         )
-
-        self.control_client = cast(ControlClient, control_client)
         self.timing_server = cast(TimingServer, timing_server)
 
         _LOGGER.debug(
